@@ -16,7 +16,8 @@ RULE = ('explicit-state search per resource type (Container cap 2/3 init 0/1 and
         'state; every transition is executed on the real resource (each operation issued by its own process) and the observed state '
         '(level / items / users / both queues / grants / preemptions) is compared with a sequential reference model; in addition, from '
         'every reachable state every ordered pair of operations is issued within ONE time step and the end-of-step invariants are '
-        'checked (capacity, conservation, no grantable head left waiting, items handed out once). non-trivial = transitions in which a '
+        'checked (capacity, conservation, no grantable head left waiting, items handed out once, every user evicted by the first of the '
+        'two operations is interrupted with Preempted). non-trivial = transitions in which a '
         'request had to wait, was cancelled, preempted, or two operations shared a time step')
 ASSUMPTIONS = [
     'one operation per time step for exact comparison; two per time step for the invariants (the order of grants inside one time '
@@ -54,6 +55,7 @@ class Model:
         self.preempt_since = []              # (victim id, time at which the victim had been granted the resource)
         self.n = 0
         self.t = 0
+        self.released = False                # has any user left the resource yet (the implementation may rebuild its containers then)
 
     def key(self, r):
         return (r['prio'], r['time'], not r['preempt'])
@@ -136,6 +138,7 @@ class Model:
             for r in list(self.users):
                 if r.get('hold') == 0:
                     self.users.remove(r)
+                    self.released = True
                     self.pending_triggers.append('put')
 
     def apply(self, op):
@@ -168,6 +171,7 @@ class Model:
             for r in list(self.users):
                 if r['id'] == op[1]:
                     self.users.remove(r)
+                    self.released = True
             self.pending_triggers.append('put')
         elif k == 'interrupt':
             # the process is interrupted inside its `with request:` block and leaves it with the exception:
@@ -179,6 +183,7 @@ class Model:
             for r in list(self.users):
                 if r['id'] == op[1]:
                     self.users.remove(r)
+                    self.released = True
                     self.pending_triggers.append('put')
         self.drain()
 
@@ -196,7 +201,10 @@ class Model:
         rel = lambda r: (r['prio'], r['preempt'], r['hold'], r['id'] >= 100)
         order = sorted(self.users + self.puts, key=lambda r: (r['time'], r['id']))
         rank = {r['id']: i for i, r in enumerate(order)}
-        return (k, tuple(sorted((rank[r['id']],) + rel(r) for r in self.users)), tuple((rank[r['id']],) + rel(r) for r in self.puts))
+        # (hidden implementation state that the reference state does not show is part of the key where it is known to exist:
+        # whether the release path has run yet)
+        return (k, tuple(sorted((rank[r['id']],) + rel(r) for r in self.users)), tuple((rank[r['id']],) + rel(r) for r in self.puts),
+                self.released)
 
     def observable(self):
         k = self.kind
@@ -226,7 +234,8 @@ class Model:
         elif k == 'presource':
             ops = [('request', p, True, 1) for p in (0, 1, 2)] + [('request', 1, True, 0)]
         elif k == 'preempt':
-            ops = [('request', p, pre, 1) for p in (0, 1, 2) for pre in (True, False)] + [('request', 1, True, 2), ('request', 2, True, 2)]
+            ops = [('request', p, pre, 1) for p in (0, 1, 2) for pre in (True, False)] + [('request', 1, True, 2), ('request', 2, True, 2),
+                                                                                         ('request', 1, True, 0)]
         for r in self.puts + self.gets:
             ops.append(('cancel', r['id']))
         for r in self.users:
@@ -492,6 +501,24 @@ def compare(kind, model, snap):
     return msgs
 
 
+def evictions_reported(kind, params, steps, snap):
+    """two operations in one time step: whatever the second one is, a user that the FIRST operation evicts (decided when
+    the request is made, before the second operation exists) must be interrupted with Preempted naming that request"""
+    if kind != 'preempt' or len(steps) < 2 or len(steps[-2]) != 2:
+        return []
+    m = Model(kind, params)
+    for group in steps[:-2]:
+        for op in group:
+            m.apply(op)
+        m.tick()
+    before = set(m.preempted)
+    m.apply(steps[-2][0])
+    new = set(m.preempted) - before
+    got = set(tuple(x) for x in snap.get('preempted', ()))
+    return ['request %r evicted user %r but that process was never interrupted with Preempted' % (by, victim)
+            for victim, by in sorted(new - got)]
+
+
 # ---- search -------------------------------------------------------------------------------------------
 def search(tname, depth, pairs, first=None, pair_depth=2):
     kind, params = TYPES[tname]
@@ -561,6 +588,7 @@ def search(tname, depth, pairs, first=None, pair_depth=2):
                 elif len(snaps) == len(steps):
                     for snap in snaps[-2:]:
                         msgs += invariants(kind, params, snap, any(o[0] in ('cancel', 'interrupt') for g in steps for o in g)) + conservation(kind, params, snap, steps)
+                    msgs += evictions_reported(kind, params, steps, snaps[-1])
                 else:
                     msgs.append('the driver did not finish')
                 if msgs:
@@ -607,4 +635,6 @@ def replay(case, faults):
         msgs += compare(kind, m, snaps[-1])
     for snap in snaps[-2:]:
         msgs += invariants(kind, params, snap, any(o[0] in ('cancel', 'interrupt') for g in steps for o in g)) + conservation(kind, params, snap, steps)
+    if not single:
+        msgs += evictions_reported(kind, params, steps, snaps[-1])
     return msgs
